@@ -346,7 +346,7 @@ func c11RabinScenarioV(c *kc.Ctx, mock bool, n, t int, faults map[int]string, vi
 			continue
 		}
 		var sc *rdkg.SecretCommits
-		run(func() { sc, _ = x.gen.SecretCommits() })
+		run(func() { sc, _ = x.secretCommits() })
 		if sc != nil && x.fault == "badSecretCommits" {
 			// publish commitments of f + h where h vanishes at the evaluation point (index+1) of every
 			// node except the victim: only the victim's share fails, it complains, the others reveal
@@ -395,7 +395,7 @@ func c11RabinScenarioV(c *kc.Ctx, mock bool, n, t int, faults map[int]string, vi
 				continue
 			}
 			var cc *rdkg.ComplaintCommits
-			run(func() { cc, _ = x.gen.ProcessSecretCommits(sc) })
+			run(func() { cc, _ = x.processSecretCommits(sc) })
 			if cc != nil {
 				ccs = append(ccs, cc)
 			}
@@ -408,7 +408,7 @@ func c11RabinScenarioV(c *kc.Ctx, mock bool, n, t int, faults map[int]string, vi
 				continue
 			}
 			var rc *rdkg.ReconstructCommits
-			run(func() { rc, _ = x.gen.ProcessComplaintCommits(cc) })
+			run(func() { rc, _ = x.processComplaintCommits(cc) })
 			if rc != nil && (x.fault == "badReconstructValue" || x.fault == "badReconstructIndex") && rc.Share != nil {
 				// a participant that reveals, under its own signature, another value than the share it was dealt,
 				// or its share under somebody else's evaluation point
@@ -449,10 +449,17 @@ func c11RabinScenarioV(c *kc.Ctx, mock bool, n, t int, faults map[int]string, vi
 		}
 		for _, rc := range deliver {
 			for rep := 0; rep < 1+dup%2; rep++ {
-				if !run(func() { _ = x.gen.ProcessReconstructCommits(rc) }) && honest(x) {
+				if !run(func() { _ = x.processReconstructCommits(rc) }) && honest(x) {
 					viol("reconstruct-panic", fmt.Sprintf("ProcessReconstructCommits at honest node %d panicked (message from %d about dealer %d, delivery %d, duplication mode %d)", x.i, rc.Index, rc.DealerIndex, rep, dup))
 					return
 				}
+			}
+		}
+	}
+	if tr != nil {
+		for _, x := range nodes {
+			if x.fault != "absent" {
+				run(func() { x.keyQuery() })
 			}
 		}
 	}
